@@ -4,7 +4,7 @@ set -e
 MUT=$(cd "$1" && pwd); P=$2; SLOT=$3
 ALT=/verif/.cache/alt/slot$SLOT
 mkdir -p "$ALT"
-rsync -a --delete --exclude .git --exclude .cache --exclude replays --exclude seeded /verif/ "$ALT/verif/"
+rsync -a --delete --exclude .git --exclude .cache --exclude replays --exclude seeded "${VERIF_SNAP:-/verif}/" "$ALT/verif/"
 mkdir -p "$ALT/verif/.cache"
 sed -i "s|path = \"/repo\"|path = \"$MUT\"|" "$ALT/verif/harness/Cargo.toml"
 cp "$MUT/Cargo.lock" "$ALT/verif/harness/Cargo.lock" 2>/dev/null || true
